@@ -37,20 +37,28 @@ func runMutant(repo, prop, patch string, timeout int, lock map[string]*lockEntry
 			known[f.Obl] = true
 		}
 	}
+	noRetry = true // a mutant is expected to fail: no second, sequential attempts
 	out := c.runProperty(prop, timeout, 0, false, func(id string) bool {
 		e, ok := lock[id]
 		return (ok && e.Status == "open") || known[id]
 	})
+	noRetry = false
 	var failed []string
 	seen := map[string]bool{}
+	base := map[string]bool{}
 	for _, r := range out.results {
 		seen[r.Obl.ID] = true
+		base[oblBase(r.Obl.ID)] = true
 		if !r.OK {
 			failed = append(failed, r.Obl.ID+" ("+r.Status+")")
 		}
 	}
+	for id := range out.skipped {
+		base[oblBase(id)] = true
+	}
+	// the same tolerance as the check: renamed annotation-free obligations and vanished ordinals are not a kill
 	for id, e := range lock {
-		if hasProp(e.Props, prop) && e.Status != "open" && !seen[id] {
+		if hasProp(e.Props, prop) && e.Status != "open" && !seen[id] && !textKeyed(id) && !(oblBase(id) != id && base[oblBase(id)]) && !(e.Status == "cover" && base[oblBase(id)]) {
 			failed = append(failed, id+" (no longer generated)")
 		}
 	}
